@@ -14,7 +14,7 @@ pub fn def_c03() -> PropDef {
         level: "exploration",
         profile: profile_c03,
         oracle: |_cfg| Box::new(Seq::new("C03")),
-        quick_runs: 20_000,
+        quick_runs: 60_000,
         thorough_runs: 500_000,
         panic_is_violation: false,
         rule: "run = multi-replica history (so that prior states contain conflicts, tombstones, multi-unit characters, marks) in which every editing call, valid, boundary or invalid (about 20% use object ids of the wrong kind or of another replica), is checked op by op against a sequential reference model (R3): the R2 tree before the call, transformed by the documented effect of the call (put replaces the register by one value; insert shifts; delete removes; increment adds to every counter of the register and removes non-counters; splice / splice_text = delete-then-insert in encoding units; mark/unmark change only marks; blocks insert/remove one marker), must equal the R2 tree after the call inside the open transaction, and again after commit; an invalid call must return Err and leave the tree and pending_ops unchanged. Where the documentation leaves the outcome open (index inside a multi-unit element, delete of a missing map key) Err-without-change and the documented clamp are both accepted. non-trivial = distinct (call kind, argument class, prior-state class) triples reached; distinct by that triple",
